@@ -58,6 +58,16 @@ fn num(f: &Field, x: u32) -> String {
             }
             out
         }
+        // class G: a digit separator / a type suffix inside a position, stride or array length
+        9 => {
+            let d = format!("{x}");
+            if d.len() >= 2 {
+                format!("{}_{}", &d[..1], &d[1..])
+            } else {
+                format!("0_{d}")
+            }
+        }
+        10 => format!("{x}usize"),
         _ if f.zero_pad => format!("0{x}"),
         _ => format!("{x}"),
     }
@@ -69,6 +79,9 @@ fn range_text(f: &Field) -> String {
         if f.syntax == 1 {
             // half-open: the upper bound is exclusive
             format!("{}..{}", num(f, lo), num(f, hi + 1))
+        } else if f.syntax == 11 {
+            // class G: the range written MSB-first, as data sheets do (`bits(15..=8)`)
+            format!("{}..={}", num(f, hi), num(f, lo))
         } else if lo == hi && in_list && !f.qualified {
             num(f, lo)
         } else {
@@ -140,6 +153,10 @@ fn elem_type(f: &Field, j: usize) -> String {
     let j = ty_index(f, j);
     let w = f.value_width();
     match &f.kind {
+        // class G: primitives spelled with their path
+        Kind::Bool if f.syntax == 8 => "core::primitive::bool".into(),
+        Kind::Native if f.syntax == 8 => format!("std::primitive::u{w}"),
+        Kind::Signed if f.syntax == 8 => format!("core::primitive::i{w}"),
         Kind::Bool => "bool".into(),
         Kind::Arb if f.syntax == 6 => format!("arbitrary_int::UInt<u{}, {w}>", storage_bits(w)),
         Kind::Arb => {
